@@ -333,6 +333,38 @@ fn run(ctx: &mut Ctx) {
             });
         }
     }
+    // long histories: repeatable kinds beyond the sizes where small-vector / sort / capacity thresholds sit
+    ctx.bound("long_histories", "N tags of each repeatable kind (modules, SMBIOS, custom) for N in {2,3,8,16,17,31,32,33,34,48,64,65,100,300} with distinct contents, alone / preceded / followed by single-valued calls / with all 19 single-valued slots set, and two repeatable kinds interleaved");
+    for rep in [2usize, 12, 21] {
+        for n in [2usize, 3, 8, 16, 17, 31, 32, 33, 34, 48, 64, 65, 100, 300] {
+            for companion in 0..6 {
+                let mut prog: Vec<(usize, usize)> = vec![];
+                let singles: Vec<usize> = (0..NSLOTS).filter(|s| !REPEATABLE[*s]).collect();
+                match companion {
+                    1 => prog.push((3, 0)),
+                    2 => prog.push((20, 0)),
+                    4 => prog.extend(singles.iter().map(|s| (*s, 1))),
+                    _ => {}
+                }
+                for i in 0..n {
+                    prog.push((rep, i));
+                    if companion == 5 {
+                        // interleave with another repeatable kind
+                        prog.push((if rep == 2 { 12 } else { 2 }, i));
+                    }
+                }
+                if companion == 3 {
+                    prog.push((3, 1));
+                }
+                let describe = || J::obj().set("part", "long-history").set("repeatable_slot", SLOT_NAMES[rep]).set("count", n).set("companion", ["none", "meminfo before", "image_load_addr before", "meminfo after", "all single-valued slots before", "interleaved with another repeatable kind"][companion]);
+                ctx.leaf(describe, |ctx| {
+                    ctx.state_direct();
+                    ctx.nontrivial();
+                    run_program(ctx, &prog, &|| format!("{} x {} ({})", n, SLOT_NAMES[rep], companion));
+                });
+            }
+        }
+    }
     for typ in 0..=21u32 {
         ctx.leaf(
             || J::obj().set("part", "custom-with-specified-type").set("type", typ),
